@@ -2,7 +2,13 @@ CONSTANTS
   CodeKeys = TRUE
   HasFV = TRUE
   HasImages = TRUE
+  StoreFailed = FALSE
+  PosKeyMode = "abs"
+  IdxKeyMode = "abs"
   MaxDepth = 5
+  MaxDepthDmg = 4
+  MaxDepthCollide = 3
+  Families = {"intact", "dmg", "collide"}
 SPECIFICATION Spec
 VIEW View
 INVARIANTS ModelExact EmitCase
